@@ -1043,3 +1043,186 @@ Example reload_nonvacuous_now :
   on_changed Tls all_fixes st0 (in_of "" [BKey (Some (KSig ECDSA 256 1 "aa")) ""; BCert (Some leaf); BCert (Some ca)]) =
     Reloaded {| st_kid := ""; st_alg := ""; st_pub := Some 1; st_keys := []; st_chain := [5; 6] |}.
 Proof. vm_compute. split; reflexivity. Qed.
+
+(** * What fuel exhaustion means *)
+
+(** the result of a chain walk that returns does not depend on the fuel *)
+Lemma build_chain_more_fuel fixed pool : forall fuel rchain child ch,
+  build_chain fixed fuel pool rchain child = Some ch ->
+  forall fuel', fuel <= fuel' -> build_chain fixed fuel' pool rchain child = Some ch.
+Proof.
+  induction fuel as [|f IH]; intros rchain child ch H fuel' Hle; [discriminate|].
+  destruct fuel' as [|f']; [lia|]. simpl in *.
+  destruct (next_issuer fixed pool (child :: rchain) child) as [c|]; [|exact H].
+  apply IH with (fuel' := f') in H; [exact H|lia].
+Qed.
+
+(** the walk of the PINNED code, as a relation: [walk pool child tr] — from
+    [child] the recursion visits exactly the certificates [tr] and returns *)
+Inductive walk (pool : list cert) : list cert -> cert -> list cert -> Prop :=
+| walk_stop rchain child : next_issuer false pool (child :: rchain) child = None -> walk pool rchain child [child]
+| walk_step rchain child c tr :
+    next_issuer false pool (child :: rchain) child = Some c -> walk pool (child :: rchain) c tr ->
+    walk pool rchain child (child :: tr).
+
+Lemma build_chain_walk pool : forall fuel rchain child ch,
+  build_chain false fuel pool rchain child = Some ch -> exists tr, walk pool rchain child tr /\ length tr <= fuel.
+Proof.
+  induction fuel as [|f IH]; intros rchain child ch H; [discriminate|].
+  simpl in H. destruct (next_issuer false pool (child :: rchain) child) as [c|] eqn:N.
+  - apply IH in H. destruct H as [tr [W L]]. exists (child :: tr). split; [eapply walk_step; eauto|simpl; lia].
+  - exists [child]. split; [apply walk_stop; auto|simpl; lia].
+Qed.
+
+Lemma walk_build_chain pool : forall rchain child tr,
+  walk pool rchain child tr -> forall fuel, length tr <= fuel -> exists ch, build_chain false fuel pool rchain child = Some ch.
+Proof.
+  intros rchain child tr W. induction W as [rchain child N|rchain child c tr N W IH]; intros fuel L.
+  - destruct fuel as [|f]; [simpl in L; lia|]. simpl. rewrite N. eauto.
+  - destruct fuel as [|f]; [simpl in L; lia|]. simpl. rewrite N. apply IH. simpl in L. lia.
+Qed.
+
+(** next_issuer of the pinned code does not look at the chain *)
+Lemma next_issuer_pinned_chain pool ch1 ch2 child : next_issuer false pool ch1 child = next_issuer false pool ch2 child.
+Proof. reflexivity. Qed.
+
+(** a walk that returns never visits a certificate (identity [c_id]) twice:
+    the next step depends on the child only, so a revisit would repeat for ever *)
+Lemma next_issuer_id pool ch child c :
+  next_issuer false pool ch child = Some c -> In c pool.
+Proof. unfold next_issuer. intros H. apply find_some in H. tauto. Qed.
+
+Lemma walk_in_pool pool : forall rchain child tr, walk pool rchain child tr -> In child pool -> Forall (fun c => In c pool) tr.
+Proof.
+  intros rchain child tr W. induction W as [rchain child N|rchain child c tr N W IH]; intros Hin.
+  - constructor; auto.
+  - constructor; auto. apply IH. eapply next_issuer_id; eauto.
+Qed.
+
+Lemma walk_chain_irrelevant pool : forall r1 child tr, walk pool r1 child tr -> forall r2, walk pool r2 child tr.
+Proof.
+  intros r1 child tr W. induction W as [r1 child N|r1 child c tr N W IH]; intros r2.
+  - apply walk_stop. exact N.
+  - eapply walk_step; [exact N|apply IH].
+Qed.
+
+Lemma walk_deterministic pool : forall r child tr1, walk pool r child tr1 -> forall tr2, walk pool r child tr2 -> tr1 = tr2.
+Proof.
+  intros r child tr1 W. induction W as [r child N|r child c tr N W IH]; intros tr2 W2.
+  - inversion W2; subst; [reflexivity|]. unfold next_issuer in *. congruence.
+  - inversion W2; subst.
+    + unfold next_issuer in *. congruence.
+    + assert (c0 = c) by (unfold next_issuer in *; congruence). subst. f_equal. apply IH. assumption.
+Qed.
+
+(** a walk that returns does not come back to its start *)
+Lemma walk_no_return pool : forall r child tr, walk pool r child tr ->
+  match tr with [] => False | x :: rest => x = child /\ ~ In child rest end.
+Proof.
+  intros r child tr W.
+  (* induction on the length of the walk: if child reappears in the rest, the walk from that
+     occurrence is a strictly shorter walk from the same child, but walks are deterministic *)
+  remember (length tr) as n eqn:Hn. revert r child tr W Hn.
+  induction n as [n IHn] using lt_wf_ind. intros r child tr W Hn.
+  destruct W as [r child N|r child c tr N W].
+  - split; [reflexivity|intros []].
+  - split; [reflexivity|]. intros Hin.
+    (* find the sub-walk starting at the later occurrence of child *)
+    assert (Sub : forall r' x tr', walk pool r' x tr' -> In child tr' ->
+                  exists r'' tr'', walk pool r'' child tr'' /\ length tr'' <= length tr').
+    { clear. intros r' x tr' W. induction W as [r' x N|r' x c tr' N W IH]; intros Hin.
+      - destruct Hin as [->|[]]. exists r', [child]. split; [apply walk_stop; auto|simpl; lia].
+      - destruct Hin as [->|Hin].
+        + exists r', (child :: tr'). split; [eapply walk_step; eauto|simpl; lia].
+        + destruct (IH Hin) as [r'' [tr'' [W' L]]]. exists r'', tr''. split; [auto|simpl; lia]. }
+    destruct (Sub _ _ _ W Hin) as [r'' [tr'' [W' L]]].
+    assert (Full : walk pool r child (child :: tr)) by (eapply walk_step; eauto).
+    apply walk_chain_irrelevant with (r2 := r) in W'.
+    pose proof (walk_deterministic _ _ _ _ Full _ W') as E. subst tr''. simpl in L. lia.
+Qed.
+
+Lemma walk_nodup pool : forall r child tr, walk pool r child tr -> NoDup tr.
+Proof.
+  intros r child tr W. induction W as [r child N|r child c tr N W IH].
+  - constructor; [intros []|constructor].
+  - constructor; [|exact IH].
+    pose proof (walk_no_return _ _ _ _ (walk_step _ _ _ _ _ N W)) as [_ H]. exact H.
+Qed.
+
+(** hence a walk that returns is no longer than the pool (pigeonhole), and the
+    fuel [S (length pool)] of [find_chain] is exhausted exactly when the
+    recursion of the pinned code does not return *)
+Theorem walk_bounded pool r child tr : walk pool r child tr -> In child pool -> length tr <= length pool.
+Proof.
+  intros W Hin. apply NoDup_incl_length; [eapply walk_nodup; eauto|].
+  pose proof (walk_in_pool _ _ _ _ W Hin) as F. rewrite Forall_forall in F. exact F.
+Qed.
+
+Theorem pinned_exhaustion_is_divergence pool leaf :
+  In leaf pool ->
+  (build_chain false (S (length pool)) pool [] leaf = None <-> ~ exists tr, walk pool [] leaf tr).
+Proof.
+  intros Hin. split.
+  - intros H [tr W].
+    destruct (walk_build_chain _ _ _ _ W (S (length pool))) as [ch E]; [|congruence].
+    pose proof (walk_bounded _ _ _ _ W Hin). lia.
+  - intros H. destruct (build_chain false (S (length pool)) pool [] leaf) as [ch|] eqn:E; [|reflexivity].
+    exfalso. apply H. apply build_chain_walk in E. destruct E as [tr [W _]]. eauto.
+Qed.
+
+(** * C19-F1: which files give a key store without keys *)
+Definition is_cert_block (b : block) : bool := match b with BCert (Some _) => true | _ => false end.
+
+Lemma scan_keys_nonempty f bl : forall es cs es' cs',
+  scan f bl es cs = Ok (es', cs') -> es <> [] -> es' <> [].
+Proof.
+  induction bl as [|b r IH]; intros es cs es' cs'; simpl.
+  - intros H. inversion H. auto.
+  - destruct b as [[[a z pub spki|]|] kid|[c|]|]; try discriminate.
+    + destruct (fx2 f && negb (size_ok a z)); [discriminate|].
+      intros H _. eapply IH; eauto. destruct es; discriminate.
+    + intros H Hne. eapply IH; eauto.
+Qed.
+
+Lemma scan_no_keys f bl : forall cs es' cs',
+  scan f bl [] cs = Ok (es', cs') -> (es' = [] <-> forallb is_cert_block bl = true).
+Proof.
+  induction bl as [|b r IH]; intros cs es' cs'; simpl.
+  - intros H. inversion H. tauto.
+  - destruct b as [[[a z pub spki|]|] kid|[c|]|]; try discriminate.
+    + destruct (fx2 f && negb (size_ok a z)); [discriminate|]. simpl.
+      intros H. split; [|discriminate]. intros E. exfalso.
+      eapply scan_keys_nonempty in H; [apply H; exact E|discriminate].
+    + simpl. intros H. eapply IH; eauto.
+Qed.
+
+Lemma verify_nil_iff f ok pool es known out : verify f ok pool es known = Ok out -> (out = [] <-> es = []).
+Proof.
+  destruct es as [|p r]; simpl.
+  - intros H. inversion H. tauto.
+  - destruct (find_chain (fx6 f) pool (p_pub p)) as [chain|]; [|discriminate].
+    destruct (negb (is_nil chain) && negb (ok (p_pub p))); [discriminate|].
+    match goal with |- context [existsb ?q known] => destruct (existsb q known) end; [discriminate|].
+    intros H. apply bind_ok in H. destruct H as [es' [_ H]]. inversion H. split; discriminate.
+Qed.
+
+(** the pinned createKeyStore returns an EMPTY store without error exactly for
+    files that consist of well-formed certificates only (in particular the
+    empty file and every file whose first block is cut off) *)
+Theorem empty_store_iff f ok bl :
+  create_key_store f ok bl = Ok [] <-> (fx1 f = false /\ forallb is_cert_block bl = true).
+Proof.
+  unfold create_key_store. split.
+  - intros H. apply bind_ok in H. destruct H as [[es cs] [S H]].
+    apply bind_ok in H. destruct H as [out [V H]]. simpl in V.
+    destruct (fx1 f) eqn:F; simpl in H.
+    + destruct out; simpl in H; discriminate.
+    + inversion H. subst out. split; [reflexivity|].
+      apply (scan_no_keys _ _ _ _ _ S). apply (verify_nil_iff _ _ _ _ _ _ V). reflexivity.
+  - intros [F C].
+    assert (S : exists cs, scan f bl [] [] = Ok ([], cs)).
+    { clear F. generalize (@nil cert) as cs0. induction bl as [|b r IH]; intros cs0; simpl; [eauto|].
+      simpl in C. apply andb_true_iff in C. destruct C as [Cb Cr].
+      destruct b as [p kid|[c|]|]; try discriminate. apply IH. exact Cr. }
+    destruct S as [cs S]. rewrite S. simpl. rewrite F. reflexivity.
+Qed.
